@@ -29,8 +29,9 @@ LITERALS = ["1e5f", "2E-3L", "0x1p-1f", "0", "42", "017", "0x1F", "0b101", "42u"
             "2.L", "0x1.8p3", "0x1p-2L", "0X.Ap1f", "'a'", "'\\n'", "'\\''", "'\\x41'", "'\\101'", "L'a'", "u8'a'",
             "u'a'", "U'a'", "'ab'", "'abcd'", '"s t"', '""', '"a\\"b"', 'L"w"', 'u8"x"', 'u"x"', 'U"x"',
             '"c:\\\\dir\\\\f.h"', '"\\q\\8"']
-IDENTS = ["x", "a$b", "_i9", "tt", "intx", "L", "u8", "q" * 63, "q" * 64, "q" * 65, "w" * 255 + "9", "_" * 256]
-LONGLITS = ["1" * 40, "0x" + "F" * 33, "\"" + "s" * 300 + "\"", "1." + "0" * 70 + "e10", "'" + "ab" + "'", "0" * 65]
+IDENTS = ["x", "a$b", "_i9", "tt", "intx", "L", "u8", "q" * 63, "q" * 64, "q" * 65]
+# (kept below ~70 characters: the scanners of CLiterals.tla recurse once per character, and TLC's stack is finite)
+LONGLITS = ["1" * 40, "0x" + "F" * 33, "\"" + "s" * 66 + "\"", "1." + "0" * 40 + "e10", "'" + "ab" + "'", "0" * 65]
 VOCAB = PUNCT + KEYWORDS + LITERALS + IDENTS + LONGLITS
 GAPS = ["", " ", "\t", "\n", " \n\t ", "    \n", "      \n     \n    ", "\n# 7 \"inc/f.h\"\n", "\n#line 12\n", "\n# 3 \"b.h\" 1 3 4\n",
         "\n#pragma omp x y\n", "\n#pragma\n", "\n  #  pragma  pack(1)\n", "\n#line 5 \"c:\\\\w\\\\p.h\"\n",
@@ -73,7 +74,7 @@ def run_shape(ctx, label, shape, sample=None, rnd=None, invs=INVS):
     try:
         path, sub = mc_module(wd, "CLex", dict(Shape=[set(s) for s in shape], Types=TYPES))
         exports = []
-        res = tlc(path, sub + "INIT Init\nNEXT Next\n" + invs, wd=wd, on_export=exports.append, timeout=3000)
+        res = tlc(path, sub + "INIT Init\nNEXT Next\n" + invs, wd=wd, on_export=exports.append, timeout=3000, xss="256m")
         tlc_ok(res, "CLex " + label)
         if res.violated:
             raise common.MachineryError("CLex %s: spec invariant %s violated" % (label, res.violated))
